@@ -10,20 +10,25 @@ git -C /repo worktree add -q --detach $WT HEAD || exit 3
 cleanup() { git -C /repo worktree remove --force $WT 2>/dev/null; }
 trap cleanup EXIT
 cd $WT
+demo=$(ls "$D"/*_test.go 2>/dev/null | head -1)
+race=""; grep -qi 'race' "$D/meta.json" 2>/dev/null && race="-race"
+if [ -n "$demo" ]; then
+  cp "$demo" $WT/zz_demo_test.go
+  without=$(go test $race -vet=off -count=1 -run 'TestDemo' ./... 2>&1 | tail -1); echo "demo without patch: $without"
+  rm -f $WT/zz_demo_test.go
+fi
+git checkout -q -- . 2>/dev/null
 if ! git apply "$D/patch.diff"; then echo "PATCH-DOES-NOT-APPLY"; exit 3; fi
 if git diff --name-only | grep -q '_test.go'; then echo "PATCH-TOUCHES-TESTS"; fi
 suite=$(go test -vet=off -count=1 ./... 2>&1 | tail -1); echo "suite with patch: $suite"
-demo=$(ls "$D"/*_test.go 2>/dev/null | head -1)
 if [ -n "$demo" ]; then
   cp "$demo" $WT/zz_demo_test.go
-  race=""; grep -qi '"race"\|-race' "$D/meta.json" 2>/dev/null && race="-race"
   with=$(go test $race -vet=off -count=1 -run 'TestDemo' ./... 2>&1 | tail -1); echo "demo with patch: $with"
-  git stash -q -- $(git diff --name-only) 2>/dev/null
-  without=$(go test $race -vet=off -count=1 -run 'TestDemo' ./... 2>&1 | tail -1); echo "demo without patch: $without"
-  git stash pop -q
   rm -f $WT/zz_demo_test.go
 fi
 git checkout -q go.sum 2>/dev/null
+if git diff --quiet; then echo "PATCH-NOT-APPLIED-AT-CHECK-TIME"; exit 3; fi
+echo "patched files: $(git diff --name-only | tr '\n' ' ')"
 cd /verif
 for prop in $P "$@"; do
   out=$(VERIF_REPO_DIR=$WT VERIF_SEED=${VERIF_SEED:-1} ./check $prop $TIER 2>&1); rc=$?
